@@ -85,6 +85,11 @@ var curProgress *ReadProgress
 // arm a new read deadline).
 var afterReadError func(c *websocket.Conn, i int)
 
+// rereadSameErr (set by the checks whose property says the error is
+// permanent / the same on every later read): a reader that has failed must
+// fail with that same error when it is read again.
+var rereadSameErr bool
+
 // readBody reads r with the step's sizes until EOF, error or abandon point.
 func readBody(r io.Reader, st RStep) (data []byte, complete bool, err error) {
 	sr := &sizedReader{sizes: st.Sizes}
@@ -129,6 +134,10 @@ func readBody(r io.Reader, st RStep) (data []byte, complete bool, err error) {
 				k2, e2 := r.Read(xb[:])
 				if k2 != 0 || e2 == nil || e2 == io.EOF {
 					observe("a message reader failed with %q after %d bytes; read again it returned %d bytes and error %v - a partial message is reported complete or continues", e, len(data), k2, e2)
+					break
+				}
+				if rereadSameErr && e2.Error() != e.Error() {
+					observe("a message reader failed with %q; read again it failed with another error, %q - the failure is not permanent as stated", e, e2)
 					break
 				}
 			}
